@@ -309,11 +309,15 @@ class PrepareAst:
                 for cond in result.branches.keys()
             ]
 
-            for nr, choice in enumerate(choices):
-                for other in choices[:nr]:
+            # group by printed value first, selections can have many keys
+            seen: dict[tuple, list] = {}
+
+            for choice in choices:
+                for other in seen.setdefault((type(choice), str(choice)), []):
                     assert not bool(
                         other == choice
                     ), f"select_with: more than one key denotes the value '{choice}'"
+                seen[(type(choice), str(choice))].append(choice)
 
             if not isinstance(result.arg, _type_qualifier.TypeQualifierBase):
                 # constant selector: choose the branch at compile time
